@@ -297,3 +297,7 @@ pub fn enable_logging() {
     let layer = tracing_subscriber::fmt::layer().with_writer(std::io::sink).with_ansi(false).with_filter(targets);
     let _ = tracing_subscriber::registry().with(layer).try_init();
 }
+
+/// `./check` sets VERIF_SEARCH when a proof obligation or a regenerated fact of the property no longer checks: the suites
+/// then also run their expensive cases (the ones otherwise kept for the thorough tier) in search of a concrete failing input
+pub fn searching() -> bool { std::env::var("VERIF_SEARCH").map(|v| v == "1").unwrap_or(false) }
